@@ -70,6 +70,11 @@ def gen(rng, ctx):
         # an instance whose pin names contain each other (D/SD, Q/QN): ignore_pins given as a plain string
         parent = G.add_blackboxes(rng, parent, 1, bbdefs=[{"name": "sdff", "inputs": ["D", "SD", "SE", "CK"], "outputs": ["Q", "QN"]}], prefix="sc")
         scan = True
+        if rng.random() < 0.3:
+            # a state bit observed directly: the blackbox output PIN carries the output mark
+            for x in parent["nodes"]:
+                if x[0] == f"sc0.{rng.choice(['Q', 'QN'])}":
+                    x[2] = True
     children = [gen_child(rng, i) for i in range(rng.randint(1, 2))]
     if rng.random() < 0.4:
         # a child with a feed-through port (input that is also an output); only usable with add_subcircuit
